@@ -235,4 +235,4 @@ ADDED6 = {
 for _k, _v in ADDED6.items():
     CLAIMS[_k]['text'] = CLAIMS[_k]['text'] + _v
 for _k in CLAIMS:
-    CLAIMS[_k]['text'] = CLAIMS[_k]['text'] + ' Robustness: every condition is read independently of its spelling; the thorough tier re-runs the rules on the facts with all comparisons exchanged and all negations respelled and requires the same verdict, and requires silence on the 255 behaviour-preserving patches under equivalents/.'
+    CLAIMS[_k]['text'] = CLAIMS[_k]['text'] + ' Robustness: every condition is read independently of its spelling; the thorough tier re-runs the rules on the facts with all comparisons exchanged and all negations respelled and requires the same verdict, and requires silence on the behaviour-preserving patches under equivalents/ (over 300, most of them written by independent sub-agents).'
